@@ -8,6 +8,7 @@
                            (push/push_front/insert/pop/swap/resize/assign/clear/sort/find/set with the exact
                            panic conditions and classes; sort = ANY sorted permutation: the contract of the
                            external Vec::sort_unstable_by is a hypothesis on a Section variable);
+     elementwise_spec      + - unary- scalar forms abs entry by entry, the size guard of + and - exactly;
      sum_slice_spec, product_slice_spec, sum_spec   value on every in-range pair, the exact guard conditions;
      dot_symmetric, dot_bilinear (any ring);  linspace_ends (any field with `n as T` of characteristic 0);
      over R: linspace_monotone (strict), non-negativity, homogeneity and the triangle inequality of
@@ -57,6 +58,38 @@ Proof.
   - vm_compute isort. repeat (constructor; try reflexivity).
   - vm_compute. reflexivity.
 Qed.
+
+(* ---------------------------------------------------------------- element-wise operators *)
+Theorem elementwise_spec : forall (A : Arith) (u w : list A) (c : A),
+  (length u = length w -> exists s d, vadd u w = Ok s /\ vsub u w = Ok d /\ length s = length u /\ length d = length u /\
+      forall i, i < length u -> nth i s zero = add (nth i u zero) (nth i w zero) /\
+                                nth i d zero = sub (nth i u zero) (nth i w zero)) /\
+  (length u <> length w -> vadd u w = Panic Guard /\ vsub u w = Panic Guard) /\
+  (length (vneg u) = length u /\ length (vscale u c) = length u /\ length (vscale_l c u) = length u /\
+   length (vabs u) = length u /\ length (vadd_scalar u c) = length u /\ length (vsub_scalar u c) = length u) /\
+  (forall i, i < length u ->
+      nth i (vneg u) zero = neg (nth i u zero) /\ nth i (vscale u c) zero = mul (nth i u zero) c /\
+      nth i (vscale_l c u) zero = mul c (nth i u zero) /\ nth i (vabs u) zero = abs (nth i u zero) /\
+      nth i (vadd_scalar u c) zero = add (nth i u zero) c /\ nth i (vsub_scalar u c) zero = sub (nth i u zero) c).
+Proof. intros A u w c. exact (elementwise_spec_lemma u w c). Qed.
+Check elementwise_spec : forall (A : Arith) (u w : list A) (c : A),
+  (length u = length w -> exists s d, vadd u w = Ok s /\ vsub u w = Ok d /\ length s = length u /\ length d = length u /\
+      forall i, i < length u -> nth i s zero = add (nth i u zero) (nth i w zero) /\
+                                nth i d zero = sub (nth i u zero) (nth i w zero)) /\
+  (length u <> length w -> vadd u w = Panic Guard /\ vsub u w = Panic Guard) /\
+  (length (vneg u) = length u /\ length (vscale u c) = length u /\ length (vscale_l c u) = length u /\
+   length (vabs u) = length u /\ length (vadd_scalar u c) = length u /\ length (vsub_scalar u c) = length u) /\
+  (forall i, i < length u ->
+      nth i (vneg u) zero = neg (nth i u zero) /\ nth i (vscale u c) zero = mul (nth i u zero) c /\
+      nth i (vscale_l c u) zero = mul c (nth i u zero) /\ nth i (vabs u) zero = abs (nth i u zero) /\
+      nth i (vadd_scalar u c) zero = add (nth i u zero) c /\ nth i (vsub_scalar u c) zero = sub (nth i u zero) c).
+Print Assumptions elementwise_spec.
+
+Example elementwise_spec_nonvacuous :
+  length [q 1 2; q 3 1] = length [q 2 1; q (-1) 3] /\
+  vadd (A := AQ) [q 1 2; q 3 1] [q 2 1; q (-1) 3] = Ok [q 5 2; q 8 3] /\
+  length [q 1 2; q 3 1] <> length [q 2 1] /\ vsub (A := AQ) [q 1 2; q 3 1] [q 2 1] = Panic Guard.
+Proof. repeat split; try reflexivity. discriminate. Qed.
 
 (* ---------------------------------------------------------------- range reductions *)
 Theorem sum_slice_spec : forall (A : Arith) (v : list A) s e,
